@@ -35,6 +35,7 @@ fn dispatch(prop: &str, ctx: &Ctx, replay: Option<&[String]>) -> bool {
     "C14" => p!(c14),
     "C15" => p!(c15),
     "C16" => p!(c16),
+    "C17" => p!(c17),
     _ => false,
   }
 }
